@@ -6,11 +6,12 @@ from pv.gen import queries, worlds
 META = {
     'level': 'exploration',
     'evaluations': 'queries_compared',
-    'rule': 'generated worlds in the bounded scope (<=7 providers, <=3 trees '
+    'rule': 'generated worlds in the bounded scope (<=8 providers, <=3 trees '
             'of depth <=3, 3-4 classes, 4 traits incl. sharing, 3 '
             'aggregates, adversarial inventories and usage) x generated '
             'valid queries (<=1 unsuffixed + <=3 suffixed + resourceless '
-            'groups, all filters, microversions 1.10-1.39), each world/query '
+            'groups, all filters, microversions 1.10-1.39; a quarter of the '
+            'queries aimed at an exclusion boundary), each world/query '
             'batch under 3 PYTHONHASHSEED values; the real unlimited answer '
             'is compared two-sidedly with a brute-force enumerator written '
             'from the statement (MUST subset of actual subset of MAY, no '
@@ -34,14 +35,16 @@ for _f in FEATURE_FLOOR:
 def plan(tier, seed, scale):
     n_worlds = int((200 if tier == 'quick' else 4000) * scale)
     per = 13 if tier == 'quick' else 80
-    nq = 15 if tier == 'quick' else 25
+    nq = 20 if tier == 'quick' else 32
+    nx = 5 if tier == 'quick' else 7       # of which exclusion-boundary
     shards = []
     i = 0
     while i < n_worlds:
         m = min(per, n_worlds - i)
         for hs in (0, 1, 2):
             shards.append({'seed': seed, 'first': i, 'count': m,
-                           'queries': nq, 'hashseed': hs, 'tier': tier})
+                           'queries': nq, 'exclusion': nx, 'hashseed': hs,
+                           'tier': tier})
         i += m
     return shards
 
@@ -107,7 +110,13 @@ def run_shard(spec, res):
             v = refcand.View(d)
             res.count('worlds')
             for k in range(spec['queries']):
-                q = queries.gen_ac_query(rng, w, view=v if rng.random() < 0.6 else None)
+                if k >= spec['queries'] - spec.get('exclusion', 0) and \
+                        v.roots:
+                    q = queries.gen_exclusion_query(rng, w, v)
+                    res.count('exclusion_boundary_queries')
+                else:
+                    q = queries.gen_ac_query(
+                        rng, w, view=v if rng.random() < 0.6 else None)
                 path = queries.to_path('/allocation_candidates',
                                        queries.ac_pairs(q, rng))
                 resp = svc.client.send(Req('GET', path,
